@@ -411,7 +411,7 @@ def new_cache(kind, params):
 
 def op_line(kind, params, toks):
     if kind == "lru":
-        return f"c17.lru {1 if detect_intended() else 0} {params['max']} {params['t0']} " + " ".join(toks)
+        return f"c17.lru {params['max']} {params['t0']} " + " ".join(toks)
     return f"c17.cache {params['interval']} {params['t0']} " + " ".join(toks)
 
 
@@ -839,7 +839,7 @@ BOUNDARY = [
 
 
 def run(ctx: Ctx):
-    ctx.extra["set_max_size_variant"] = "intended" if detect_intended() else "as-shipped"
+    ctx.extra["set_max_size_evicts"] = detect_intended()  # informational; the model follows the repaired code
     for p in sorted(glob.glob(os.path.join(VERIF, "corpus", "C17", "*.json"))):
         c = json.load(open(p))
         ctx.case(("corpus", os.path.basename(p)), sample=None)
